@@ -120,6 +120,29 @@ def install(reg):
 
     E["wsgiref.util.request_uri"] = VNative(request_uri, "request_uri")
 
+    def cal_from_ical(it, a, k):
+        """icalendar.Calendar.from_ical(bytes): ValueError unless it parses (ghost ical_parses);
+        the component tree is ghost ical_parsed(bytes).  ASSUMED."""
+        data = a[0]
+        parses = it.registry.spec_natives["ical_parses"](it, [data], {})
+        if not it.path.branch(parses.t):
+            it.raise_builtin("ValueError")
+        return it.registry.spec_natives["ical_parsed"](it, [data], {})
+
+    def vobject_readone(it, a, k):
+        text = a[0]
+        parses = it.registry.spec_natives["vobj_parses"](it, [text], {})
+        if not it.path.branch(parses.t):
+            from ..core import RaiseSignal
+
+            raise RaiseSignal(it.new_exception("vobject.base.ParseError", []))
+        return it.registry.spec_natives["vobj_parsed"](it, [text], {})
+
+    E["vobject.readOne"] = VNative(vobject_readone, "vobject.readOne")
+    E["vobject.base"] = VModule("vobject.base")
+    reg.ext_bases["vobject.base.ParseError"] = ["Exception"]
+    E["icalendar.cal.Calendar.from_ical"] = VNative(cal_from_ical, "Calendar.from_ical")
+
     def to_thread(it, a, k):
         # asyncio.to_thread(f, *args, **kw): runs f in a worker thread and awaits the result;
         # sequentially that is f(*args, **kw) (interleavings are C05's subject)
